@@ -289,7 +289,17 @@ func augFmtHelpers(c *Ctx, a *flAgg, popFmt, popName *ssa.Function) {
 					okAll, why = false, "a value is rendered as "+rs+" instead of through the formatter of its type"
 				}
 			default:
-				if !(r.calleeIs("fmt", "Sprintf") && r.Args[1].isConst() && strings.Contains(r.Args[1].Const.ExactString(), "0x%x")) {
+				hexSprintf := r.calleeIs("fmt", "Sprintf") && r.Args[1].isConst() && strings.Contains(r.Args[1].Const.ExactString(), "0x%x")
+				// "0x" + strconv.FormatUint(v.Value, 16)
+				hexConcat := false
+				if r.Op == OpBin && r.Tok == token.ADD && len(r.Args) == 2 {
+					if pre, exact := leadConst(r.Args[0]); exact && pre == "0x" && r.Args[1].calleeIs("strconv", "FormatUint") && len(r.Args[1].Args) == 3 {
+						if base, ok := r.Args[1].Args[2].intConst(); ok && base == 16 && strings.HasSuffix(r.Args[1].Args[1].String(), ".Value") {
+							hexConcat = true
+						}
+					}
+				}
+				if !hexSprintf && !hexConcat {
 					okAll, why = false, "a pointer-like value is rendered as "+rs
 				}
 			}
